@@ -208,6 +208,11 @@ def sys_part(ctx):
                 exp.append(("RB", proto, sock, name))
         cmds.append("X")
         exp.append(("X",))
+    # (4b) switching to blocking mode finishes outstanding work - through the function and through the attribute alike
+    for proto in (["tcp", "tls"] if quick else ["tcp", "tls", "btcp", "btls"]):
+        for api in ("api", "attr"):
+            cmds.append("BLK %s %s" % (proto, api))
+            exp.append(("BLK", proto, api))
     # (5) inheritance of the TLS policy booleans, with and without override at accept
     for proto in ("tls", "btls"):
         for name in ("tls.auth", "tls.check_time"):
@@ -224,7 +229,7 @@ def sys_part(ctx):
     ctx.traces += 1
     for c, e, o in zip(cmds, exp, out):
         ctx.evaluations += 1
-        rep = {"harness": "sys_attr", "ops": [c] if e[0] in ("K", "LA", "SV", "IN") else ["E " + e[1], c] if len(e) > 1 else [c], "impl_out": o}
+        rep = {"harness": "sys_attr", "ops": [c] if e[0] in ("K", "LA", "SV", "IN", "BLK") else ["E " + e[1], c] if len(e) > 1 else [c], "impl_out": o}
         ctx.nontriv((e[0], c[:60], o[:80]))
         if e[0] == "K":
             if o.startswith("fail"):
@@ -251,6 +256,16 @@ def sys_part(ctx):
         elif e[0] == "BL":
             if o != "0 is_blocking=0 attr=0":
                 ctx.violation("sys_attr:monitor:blocking-switch", "xcm.blocking and xcm_set_blocking/xcm_is_blocking disagree: %s -> %s" % (c, o), rep)
+        elif e[0] == "BLK":
+            f = dict(x.split("=") for x in o.split()[1:] if "=" in x)
+            if o.startswith("fail"):
+                ctx.corr_break("sys_attr", "BLK failed: " + o, rep)
+            elif not (f.get("rc") == "0" and f.get("pending_after") == "0" and f.get("blocking") == "1"):
+                ctx.violation("sys_attr:monitor:blocking-switch-leaves-work",
+                              "switching a %s connection with buffered data to blocking mode through the %s did not finish the outstanding work: %s"
+                              % (e[1], "attribute xcm.blocking" if e[2] == "attr" else "function xcm_set_blocking", o), rep)
+            elif f.get("pending_before") == "0":
+                ctx.count("c11.blk.nothing-pending")
         elif e[0] == "CO":
             f = o.split()
             if not (f[0] == "-1" and f[1] == "EACCES" and f[2] == "0") and not (f[1] == "ENOENT"):
